@@ -232,9 +232,12 @@ def Op.isCtx : Op → Bool
   | .ctxCall _ | .enter | .exit | .top => true
   | _ => false
 
-def finObs (l : Locals) : Obs :=
-  .fin l.tracker.iterNo l.tracker.iterations l.tracker.tolerance (l.tracker.todo.map List.length)
-    (l.tracker.computed.map List.length) (l.ctx.addrs.map List.length)
+/-- end-of-workload snapshot, read the way the library reads its state: through the lazily initialising `ns` -/
+def finObs (L : LazyTable) (l : Locals) : Obs :=
+  let t := l.tracker.ns L
+  let c := l.ctx.ns
+  .fin t.iterNo t.iterations t.tolerance (t.todo.map List.length) (t.computed.map List.length)
+    (c.addrs.map List.length)
 
 def Thread.emit (th : Thread) (o : Option Obs) : Thread :=
   match o with | some x => { th with obs := th.obs ++ [x] } | none => th
@@ -267,7 +270,7 @@ def execOp (P : Placement) (me : Tid) (op : Op) (l : Locals) (th : Thread) (sh :
     match P.funcMeta with
     | .moduleGlobal => (l, th.emit (some (.comp (lookupMeta f sh.metaNs))), sh)
     | .isolated => (l, th.emit (some (.comp (if th.myMeta.contains f then some me else none))), sh)
-  | .fin => (l, th.emit (some (finObs l)), sh)
+  | .fin => (l, th.emit (some (finObs P.lazy l)), sh)
   | _ => (l, th, sh)
 
 structure Global where
